@@ -93,6 +93,13 @@ def r1_step_shape(repo: Repo, rep):
     else:
         rep.ok(R, fi.site(calls[0]), fi.fq, "each condition is evaluated exactly once per step", dump(calls[0]))
     call = calls[0]
+    for w in ast.walk(fn):
+        if isinstance(w, ast.With) and any(n is call for n in ast.walk(w)):
+            modes = [dump(it.context_expr)[:60] for it in w.items if isinstance(it.context_expr, ast.Call)
+                     and (attr_chain(it.context_expr.func) or "").split(".")[-1] in ("no_grad", "set_grad_enabled", "inference_mode", "enable_grad")]
+            if modes:
+                rep.violation(R, fi.site(w), fi.fq, "training losses are computed with gradient recording as PyTorch has it (the loss must reach every parameter)",
+                              f"condition evaluated under `{modes[0]}`", "grad mode switched around the condition")
     cond_guard = _enclosing_ifs(loop, call)
     if cond_guard:
         rep.violation(R, fi.site(call), fi.fq, "the condition call is unconditional", f"guarded by `{cond_guard}`", cond_guard)
